@@ -39,6 +39,7 @@ from octave_mcp.core.constraints import (
     RequiredConstraint,
     TypeConstraint,
 )
+from octave_mcp.core.emitter import emit_value
 
 if TYPE_CHECKING:
     from octave_mcp.core.schema_extractor import SchemaDefinition
@@ -412,7 +413,9 @@ class GBNFCompiler:
         Returns:
             GBNF alternation: ("value1" | "value2" | "value3")
         """
-        escaped = [self._escape_literal(v) for v in constraint.allowed_values]
+        # Spell each value the way the canonical emitter writes it (quoted when the bare
+        # word would be read as something else), so a generated FIELD::value reads back as it
+        escaped = [self._escape_literal(emit_value(v)) for v in constraint.allowed_values]
         quoted = [f'"{v}"' for v in escaped]
         return f"({' | '.join(quoted)})"
 
@@ -425,7 +428,8 @@ class GBNFCompiler:
         Returns:
             GBNF literal: "value"
         """
-        value = str(constraint.const_value)
+        # Canonical OCTAVE spelling of the value (true/false/null, quoted strings), not repr
+        value = emit_value(constraint.const_value)
         escaped = self._escape_literal(value)
         return f'"{escaped}"'
 
